@@ -708,11 +708,43 @@ func (e *Engine) builtin(fr *Frame, st *State, b *ssa.Builtin, c *ssa.CallCommon
 		}
 		return &Val{T: n, S: sBV64, Typ: types.Typ[types.Int]}, nil
 	case "delete":
+		if len(args) == 2 {
+			if mt, ok := c.Args[0].Type().Underlying().(*types.Map); ok {
+				m, k := args[0], args[1]
+				e.guardCheck(fr, st, m, true, pos)
+				ks, vs := e.reg.sortOf(mt.Key()), e.reg.sortOf(mt.Elem())
+				kp := e.keyMapP(ks, vs)
+				hp := e.heapGet(st, st.heap, kp)
+				// delete on a nil map is a no-op; the store at reference 0 is harmless (nothing reads presence of the nil map)
+				e.heapSet(st, kp, sto(hp, m.T, sto(sel(hp, m.T), k.T, "false")))
+				return nil, nil
+			}
+		}
 		return nil, fmt.Errorf("builtin delete (outside subset)")
 	case "print", "println":
 		return nil, nil
 	case "min", "max":
-		return nil, fmt.Errorf("builtin %s unsupported", b.Name())
+		// integer operands only (the result type says whether the comparison is signed)
+		if len(args) >= 1 && bvWidth(args[0].S) > 0 {
+			signed := true
+			if bt, ok := c.Args[0].Type().Underlying().(*types.Basic); ok && bt.Info()&types.IsUnsigned != 0 {
+				signed = false
+			}
+			lt := "bvslt"
+			if !signed {
+				lt = "bvult"
+			}
+			acc := args[0].T
+			for _, a := range args[1:] {
+				if b.Name() == "min" {
+					acc = ite("("+lt+" "+a.T+" "+acc+")", a.T, acc)
+				} else {
+					acc = ite("("+lt+" "+acc+" "+a.T+")", a.T, acc)
+				}
+			}
+			return &Val{T: acc, S: args[0].S, Typ: c.Args[0].Type()}, nil
+		}
+		return nil, fmt.Errorf("builtin %s on non-integer operands unsupported", b.Name())
 	}
 	return nil, fmt.Errorf("unsupported builtin %s", b.Name())
 }
